@@ -208,6 +208,31 @@ CHECKS = {
         'Known findings recorded in known_findings.d/C20.json. Pre-release versions are judged only where CargoReq!InScope holds. cfg '
         'trailing comma and lone all/any/not may go either way.',
         'DESIGN.md section 5, C20 and section 10'),
+    'C04': (
+        'TLC: BuildGraph (static laws + Run(e) machine: greedy fixpoint = every maximal schedule; all built at deadlock <=> Closed and '
+        'Acyclic for unique producers) on all small manifests, ProjectModel (documented output names, Collides, all / test-prereq '
+        'expectations) on a bounded project family; real build.ninja of family, random and corpus projects read by an independent '
+        'Ninja reader and judged by TraceBuildGraph.tla; every model graph pushed through the real NinjaBuild writer',
+        'Model checking of BuildGraph_MC (all schedules of all <= 2/<= 3-edge manifests) and ProjectModel_MC (13k abstract projects); '
+        'the real build.ninja of sampled family projects (with expectations exported by TLC), odd-name probes, seeded random projects '
+        'and the configurable projects of test cases/common is projected by harness/ninja_ref.py and judged clause by clause '
+        '(Lexical, RulesDefined, UniqueProducer, Closed, Acyclic, ReachAll, ReachTestPrereq, CollisionAccepted ...).',
+        'Validity "as ninja would judge it" rests on ninja_ref (no ninja binary); the family is sampled, not exhausted, against the '
+        'implementation; the writer-level binding is exhaustive over the exported graphs.',
+        'DESIGN.md section 5, C04 and section 10'),
+    'C15': (
+        'TLC: IntroConsistent - a 26-clause relation between intro-*.json, build.ninja (ninja_ref), the pickled test/install data, '
+        'get_option() messages, real install trees and real test runs; IntroModel_MC checks the relation on the generator model; '
+        'trace validation of random C projects, data projects (--backend=none with real install and test), the TLC family and the '
+        'corpus by TraceIntro.tla',
+        'Model checking of the relation on the generator model for the bounded family, and evaluation of the same relation by TLC on '
+        'the projected views of real build directories: target filenames vs statements, sources vs compile inputs, tests vs '
+        'meson_test_setup.dat and vs argv/env seen by really executed tests, buildoptions vs get_option() messages (non-default values '
+        'on the command line), install plan vs install.dat vs the tree a real `meson install --destdir` leaves, buildsystem files vs '
+        'the regeneration statement.',
+        'Real install/test only on --backend=none projects; run and alias targets and install scripts, symlinks and empty directories '
+        'are outside the relation. TraceIntro reports every violated clause, so a known finding cannot mask another.',
+        'DESIGN.md section 5, C15 and section 10'),
 }
 
 NOT_YET = {}
